@@ -159,7 +159,9 @@ func analyse(events []fakeredis.Event) *analysis {
 		return cs[id]
 	}
 	for _, e := range events {
-		if e.Kind == "close" {
+		if e.Kind == "close" || (e.Kind == "fault" && (e.Note == "transport" || e.Note == "target-dies-once")) {
+			// (the node logs "close" only after the socket is gone: the client may have returned before; the firing of
+			// a connection-closing rule is logged under the same lock as the reception it answers)
 			a.closed[e.Conn] = true
 			continue
 		}
@@ -559,9 +561,14 @@ func (w *world) genMixedRedirect(rng *rand.Rand, spec *caseSpec) []item {
 	target := w.prims[rng.Intn(len(w.prims))]
 	var movedTags, askTags, plainTags []string
 	var movedSlots, askSlots, plainSlots []int
+	seen := map[int]bool{}
 	for len(movedTags) < 1+rng.Intn(2) || len(askTags) < 1+rng.Intn(2) || len(plainTags) < 1 {
 		t := fmt.Sprintf("m%d", rng.Intn(1<<24))
 		s := fakeredis.Slot(t)
+		if seen[s] {
+			continue // one role per slot
+		}
+		seen[s] = true
 		if w.srv.SlotOwner(s) == target {
 			if len(plainTags) < 1 {
 				plainTags, plainSlots = append(plainTags, t), append(plainSlots, s)
@@ -918,7 +925,11 @@ func evaluate(run *mon.Run, spec *caseSpec, items []item, nres int, events []fak
 			}
 			if val+errStr != want {
 				// (client-made errors were dealt with above: what is left is a server reply that is not this command's last one)
-				run.Violation("result-not-own-last-reply", fkey("plain"), w1(map[string]any{"expected": want}))
+				what := "plain"
+				if it.Note != "" {
+					what = it.Note + "-redirected-member"
+				}
+				run.Violation("result-not-own-last-reply", fkey(what), w1(map[string]any{"expected": want}))
 				continue
 			}
 			ownv := "echo:" + it.UID
@@ -984,10 +995,29 @@ func oneCase(run *mon.Run, spec caseSpec) {
 	}
 	var nres int
 	var pnc any
+	stuck := false
 	func() {
 		defer func() { pnc = recover() }()
-		_, nres = w.runBatch(&spec, items, func(done chan struct{}) bool { <-done; return true })
+		var returned bool
+		returned, nres = w.runBatch(&spec, items, func(done chan struct{}) bool {
+			select {
+			case <-done:
+				return true
+			case <-time.After(60 * time.Second): // harness watchdog, not a verdict: the case is reported as inconclusive
+				w.client.Close() // ends the client's retry / redirect loop
+				<-done
+				return false
+			}
+		})
+		if !returned {
+			fmt.Printf("WATCHDOG case %+v seed=%d did not return within 60 s\n", spec, spec.seed)
+			run.Inconclusive(fmt.Sprintf("a %s call did not return within 60 s (faults %v)", spec.Kind, spec.Faults))
+			stuck = true
+		}
 	}()
+	if stuck {
+		return
+	}
 	fp := fmt.Sprintf("rt|%s|n=%s|slots=%d|blocks=%d|%s", spec.Kind, nBucket(spec.N), min(spec.Slots, 4), spec.Blocks, strings.Join(dedupe(spec.Faults), "+"))
 	if pnc != nil {
 		run.Violation("panic", fmt.Sprintf("rt|%s|%s", spec.Kind, firstLine(fmt.Sprint(pnc))), map[string]any{"case": spec, "panic": fmt.Sprint(pnc)})
